@@ -63,7 +63,7 @@ pub fn additional_of(p: &Pool, op: Op) -> Option<usize> {
         PushStr(_, s) | InsertStr(_, _, s) => texts(|t| t.strs[s as usize].len()),
         PushAscii(_, n) => n as usize,
         AddAssign(_) | Add(_) | WriteFmt(_) => 2,
-        ExtendChars(_) | ExtendFiltered(_) => 4,
+        ExtendChars(_) | ExtendFiltered(_) | ExtendLying(..) => 4,
         ExtendStrs(_) => 3,
         ExtendLean(_, s) => p.m[s as usize].as_ref().map_or(0, |m| m.len()),
         Reserve(_, k) => texts(|t| t.reserves[k as usize]),
